@@ -2674,3 +2674,29 @@ def group_concrete_rules(run, rule, ast):
         run.instance(rule, "%s: a group's has_concrete_classes is accumulated over every class that joins it" % short(f), (f["file"], (stores or [f["body"]])[0].get("l", f["line"])), ok=ok)
         if not ok:
             run.violation(rule, "compiler::build_dispatch_tables|group-concreteness", "%s: a group whose first class is abstract but which also holds concrete classes counts as abstract, and the concrete-only figures of the report are too low" % why, (f["file"], (stores or [f["body"]])[0].get("l", f["line"])))
+
+
+
+def record_rules(run, rule, ast):
+    """add_function<F> of method M registers through ONE record per (M, F): a function-local static of that instantiation (or a
+    variable keyed by the method). A record keyed by the function alone is shared by every method the function is added to:
+    the second method's registration is taken for 'already registered' and dropped."""
+    n = 0
+    for f in [f for f in ast.funcs if f.get("body") and re.search(r"add_function<.*>::add_function$", f["name"])]:
+        pb = [x for x in astq.walk(f["body"]) if x.get("k") == "CXXMemberCallExpr" and re.search(r"static_list<.*>::push_back$", x.get("callee") or "")]
+        if len(pb) != 1:
+            continue
+        arg = astq.strip(pb[0]["c"][1])
+        if arg.get("k") != "DeclRefExpr":
+            run.broken.append("%s: the record pushed is not a plain variable" % short(f)[:100])
+            continue
+        st = arg["ref"].get("storage")
+        meth = re.sub(r"::add_function<.*$", "", f["name"])
+        ok = st == "static-local" or (st == "global" and meth in arg["ref"]["name"])
+        n += 1
+        run.instance(rule, "%s: the registration record belongs to this (method, function) pair" % short(f)[:120], (f["file"], pb[0]["l"]), ok=ok)
+        if not ok:
+            run.violation(rule, "method::add_function|record-key", "%s registers through `%s` (%s), a record that is not keyed by the method: adding the same function to a second method finds it 'already registered' and registers nothing" % (
+                short(f)[:100], arg["ref"]["name"][:80], st), (f["file"], pb[0]["l"]))
+    if not n:
+        run.broken.append("no add_function instantiation with a recognisable registration record")
